@@ -37,7 +37,7 @@ def run(chk):
         r = rng.fork(("cases", tl))
         fwd = []
         for i in range(8 if quick else 40):
-            inp = [c for c in safety.gen_input(r, 28) if c] or [97, 98]
+            inp = [c for c in (safety.gen_sentence(r, 28) if i % 2 else safety.gen_input(r, 28)) if c] or [97, 98]
             mode = r.choice([0, 0, 1, 4, 128, 256, 4 | 64])       # no compbrlAtCursor / compbrlLeftCursor
             outlen = r.choice([4 * len(inp) + 10, 4 * len(inp) + 10, r.range(1, len(inp) + 2), len(inp)])
             fwd.append((inp, mode, outlen, r.range(0, len(inp) - 1)))
@@ -49,6 +49,18 @@ def run(chk):
             lines.append(trans.case_line("S", mode, inp, outlen))
             lines.append(trans.case_line("P", mode, inp, outlen))
         rs = trans.run_cases(exe, tl, lines, exact=1, env=env, timeout=600)
+        # cursor sweep: the cursor at EVERY position of the input (with and without the position arrays) against no cursor
+        sweep, smeta = [], []
+        for inp, mode, outlen, cur in fwd:
+            grp = [trans.case_line("T", mode, inp, outlen, presence=0)]
+            for c in range(len(inp)):
+                for pres in (16, 28):
+                    grp.append(trans.case_line("T", mode, inp, outlen, cursor=c, presence=pres))
+            smeta.append((inp, mode, outlen, len(sweep), len(grp)))
+            sweep += grp
+        ss = trans.run_cases(exe, tl, sweep, exact=1, env=env, timeout=900)
+        for inp, mode, outlen, a, n in smeta:
+            judge(chk, tl, "forward-cursor-sweep", inp, mode, outlen, ss[a:a + n], sweep[a:a + n])
         blines, bmeta = [], []
         for j, (inp, mode, outlen, cur) in enumerate(fwd):
             grp = rs[34 * j:34 * j + 34]
@@ -70,7 +82,8 @@ def run(chk):
     shutil.rmtree(work, ignore_errors=True)
     chk.cov["rule"] = ("per table (shipped sample + generated F tables): inputs x modes without cursor-dependent bits x capacities, each under "
                        "all 32 presence patterns of the five optional arguments (typeform all zero when present) plus lou_translateString / "
-                       "lou_translatePrehyphenated (forward) and lou_backTranslateString (backward, on the forward output); distinct = "
+                       "lou_translatePrehyphenated (forward) and lou_backTranslateString (backward, on the forward output); forward also with the "
+                       "cursor at every position of the input; distinct = "
                        "(table, direction, input, mode, capacity); non-trivial = returned 1 with output")
     chk.cov["gen_status"] = gen
     chk.cov["checker_cmd"] = "make -C coq Properties/C10.vo (coqc 8.16.1)"
@@ -95,8 +108,8 @@ def judge(chk, tl, direction, inp, mode, outlen, grp, glines):
     chk.tally(direction)
     for k, x in enumerate(grp):
         if sig(x) != ref:
-            what = ("presence pattern %d" % k) if k < 32 else "wrapper function"
-            chk.violation("presence-dependence:" + direction, "%s changes the result: %s vs %s (pattern 0)" % (what, sig(x), ref),
+            what = ("presence pattern %d" % k) if k < 32 and "sweep" not in direction else "wrapper function" if "sweep" not in direction else "a cursor position"
+            chk.violation("presence-dependence:" + direction.split("-")[0], "%s changes the result: %s vs %s (pattern 0)" % (what, sig(x), ref),
                           dict(table_list=tl, direction=direction, input=inp, mode=mode, outlen=outlen,
                                case_lines=[glines[0], glines[k]], impl=[grp[0].raw, x.raw]))
             return
